@@ -12,7 +12,7 @@ from .. import frontend, api, par
 from ..derive import Summaries
 from . import dest_common as dc
 
-EXCLUDE = {"handle_str_bos_overflow", "_memset_s_chk"}
+EXCLUDE = {"handle_str_bos_overflow", "_memset_s_chk", "safec_vsnprintf_s"}
 SRC_NAMES = ("src", "srcp")
 
 
@@ -33,7 +33,7 @@ def judge(name, r, slack=True):
         elif o["dirty"] and slack and not o["clr_full"]:
             tag, text = "partial-result-left", "an error is returned after this call wrote into dest, and the clearing does not cover all dmax elements"
         if tag:
-            out.append(dict(key="C04:%s:%s:ret=%s%s" % (tag, base, o["ret"], ":dirty" if o["dirty"] else ""), rule="D-" + tag,
+            out.append(dict(key="C04:%s:%s:ret=%s%s:%s" % (tag, base, o["ret"], ":dirty" if o["dirty"] else "", o["msg"]), rule="D-" + tag,
                             where="%s:%s" % (r["file"], o["line"]), text="%s: %s (returns %s)" % (base, text, o["ret"]), path=o["path"]))
     return out
 
